@@ -3,8 +3,10 @@ package main
 import (
 	"fmt"
 	"go/ast"
+	"go/token"
 	"go/types"
 	"sort"
+	"strconv"
 	"strings"
 
 	"golang.org/x/tools/go/ssa"
@@ -787,39 +789,71 @@ func ruleSER6(c *Ctx) {
 		return
 	}
 	ws := serSequence(p, w, true)
-	rs := serSequence(p, r, false)
+	_ = serSequence(p, r, false)
 	c.Check(len(ws) > 0 && ws[0].Kind == "String" && strings.HasPrefix(ws[0].Desc, "const:"), "WriteCatalogToWriter / first item is the format version constant", p.Pos(w.Pos()), "first write is the Version constant", "the stream no longer starts with the format version")
 	okGate := false
-	if len(rs) > 0 && rs[0].Kind == "String" && strings.HasPrefix(rs[0].Desc, "const:") && len(ws) > 0 && rs[0].Desc == ws[0].Desc {
-		// the mismatch edge returns an error before any further read
+	accepted := map[string]bool{}
+	{
 		calls := findCalls(r, func(ci ssa.CallInstruction) bool {
 			f, _ := calleeOf(ci)
 			return f != nil && readPrims[f.Name()] != ""
 		})
 		sort.Slice(calls, func(i, j int) bool { return calls[i].Pos() < calls[j].Pos() })
-		if len(calls) >= 2 {
+		if len(calls) >= 2 && len(ws) > 0 {
 			first := calls[0]
 			ver := resultValues(first, 0)
+			// every test of the version string against a constant; match edge per block
+			match := map[*ssa.BasicBlock]int{}
 			for _, b := range r.Blocks {
 				iff, ok := b.Instrs[len(b.Instrs)-1].(*ssa.If)
 				if !ok {
 					continue
 				}
 				bo, ok := iff.Cond.(*ssa.BinOp)
-				if !ok || len(ver) == 0 || !(bo.X == ver[0] || bo.Y == ver[0]) {
+				if !ok || len(ver) == 0 || (bo.Op != token.EQL && bo.Op != token.NEQ) {
 					continue
 				}
-				mis := 0
-				if bo.Op.String() == "==" {
-					mis = 1
+				var other ssa.Value
+				if bo.X == ver[0] {
+					other = bo.Y
+				} else if bo.Y == ver[0] {
+					other = bo.X
+				} else {
+					continue
 				}
-				if onlyErrorReturns(b.Succs[mis], naturalLoops(r)) && edgesDominate(r, calls[1].(ssa.Instruction), func(bb *ssa.BasicBlock, si int) bool { return bb == b && si == 1-mis }) {
-					okGate = true
+				k, isK := constString(other)
+				if !isK {
+					continue
+				}
+				accepted[k] = true
+				if bo.Op == token.EQL {
+					match[b] = 0
+				} else {
+					match[b] = 1
 				}
 			}
+			chainOK := len(match) > 0
+			for b, m := range match {
+				mis := b.Succs[1-m]
+				if _, isNext := match[mis]; isNext {
+					continue // not this version: try the next accepted one
+				}
+				if !onlyErrorReturns(mis, naturalLoops(r)) {
+					chainOK = false
+				}
+			}
+			gated := edgesDominate(r, calls[1].(ssa.Instruction), func(bb *ssa.BasicBlock, si int) bool {
+				m, ok := match[bb]
+				return ok && si == m
+			})
+			writes := strings.TrimPrefix(ws[0].Desc, "const:")
+			if uq, err := strconv.Unquote(writes); err == nil {
+				writes = uq
+			}
+			okGate = chainOK && gated && accepted[writes]
 		}
 	}
-	c.Check(okGate, "ReadCatalogFromReader / version compared first, mismatch is an error", p.Pos(r.Pos()), "first read compared with Version; mismatch returns an error before anything else is read", "the format version is not checked before the rest of the stream is decoded")
+	c.Check(okGate, "ReadCatalogFromReader / version compared first, mismatch is an error", p.Pos(r.Pos()), fmt.Sprintf("first read compared with the accepted versions %v (the writer's among them); any other value returns an error before anything else is read", sortedBoolKeys(accepted)), "the format version is not checked before the rest of the stream is decoded, or the reader does not accept what the writer writes")
 }
 
 // ---------- SER-7 ----------
@@ -1508,3 +1542,12 @@ func ruleSER14(c *Ctx) {
 }
 
 func shortBlockLabel(b *ssa.BasicBlock) string { return fmt.Sprintf("block %s#%d", b.Comment, b.Index) }
+
+func sortedBoolKeys(m map[string]bool) []string {
+	var out []string
+	for k := range m {
+		out = append(out, k)
+	}
+	sort.Strings(out)
+	return out
+}
